@@ -49,7 +49,7 @@ Proof.
   - intros Ht Hp. unfold seed_of_hq, hq_assign, hq_wire, hq_of_outlink. simpl.
     rewrite (json_wire_valid _ Ht), (json_wire_valid _ Hp).
     rewrite json_wire_valid by (apply valid_repeat_ascii; reflexivity).
-    destruct hops_roundtrip_lemma as [H _]. unfold hops_to_path in H. rewrite H. reflexivity.
+    destruct hops_roundtrip_lemma as [H _]. rewrite H. reflexivity.
   - unfold seed_of_row, row_of_url, url_of_outlink. simpl. rewrite N2Z.id. reflexivity.
   - intros st. unfold seed_of_row. simpl. rewrite N2Z.id. reflexivity.
 Qed.
